@@ -25,7 +25,7 @@ RULE = (
 ASSUMPTIONS = [
     "protocol steps carry identical parameter keys (documented rectangular shape)",
     "'requested points inside the protocol' = t_start < t <= t_end; a point equal to a boundary appears once",
-    "index membership by exact float identity (a requested point one ulp from a boundary is a different point); boundaries by pandas Timedelta arithmetic (trusted)",
+    "index membership by exact float identity (a requested point one ulp from a boundary is a different point); boundaries as time reached + the step offsets in seconds (pandas total_seconds, trusted: scalar for simulate_protocol, vectorised for simulate_protocol_time_course, as the entry points compute them)",
     "continuation after a variable override is left to C04",
 ]
 TECHNIQUE = "property-based testing against closed-form piecewise propagation + differential (protocol vs manual step loop) + expected-index-set oracle"
@@ -140,7 +140,7 @@ def examine(case: dict, ctx) -> Outcome:
     if mode == "protocol":
         bounds = [t0 + x.total_seconds() for x in proto.index]
     else:
-        bounds = [float(x) for x in (proto.index + pd.Timedelta(t0, unit="s")).total_seconds()]
+        bounds = [float(x) for x in (proto.index.total_seconds() + t0)]
 
     def bad(sig, **d):
         out.bad(f"{mode}:{pre}:{sig}", **d)
